@@ -109,6 +109,14 @@ def sweep(props, n_max=3, seed=0, samples_per_shape=2, max_runs_per_world=300, i
                 nodes = [dict(id="a", deps=[], prio=0, seq=False, res=res[0]), dict(id="b", deps=[], prio=0, seq=False, res=res[1]),
                          dict(id="c", deps=([("b", [])] if other_first else []) + [("a", ["t"]), ("a", ["k", "f"])] + ([] if other_first else [("b", [])]), prio=0, seq=False, res=res[2])]
                 yield World(nodes, max_concurrency=2), False
+        # phase 1c' (deterministic): the node that supplies the activation flag of c is ALSO an argument of c, next to another
+        # dependency b: c may start only after BOTH have returned, whichever finishes first (one edge a -> c, two references)
+        for res in ("thread", "async"):
+            for flag_first in (True, False):
+                for key in (["t"], []):
+                    nodes = [dict(id="a", deps=[], prio=1 if flag_first else 0, seq=False, res=res), dict(id="b", deps=[], prio=0 if flag_first else 1, seq=False, res=res),
+                             dict(id="c", deps=[("a", []), ("b", [])], prio=0, seq=False, res=res, active=("a", list(key)))]
+                    yield World(nodes, max_concurrency=2), False
         if allow_fail:
             # phase 1d (deterministic): exactly one failing node, every position, uniform resources: a failure reported in
             # the same batch as a success must still fail the call
